@@ -22,6 +22,7 @@ import (
 	"time"
 
 	erpc "github.com/henrylee2cn/erpc/v6"
+	"github.com/henrylee2cn/erpc/v6/proto/httproto"
 	"github.com/henrylee2cn/erpc/v6/proto/jsonproto"
 	"github.com/henrylee2cn/erpc/v6/proto/pbproto"
 	"github.com/henrylee2cn/erpc/v6/proto/rawproto"
@@ -158,6 +159,9 @@ func c05Domain() (int, []c05Msg) {
 		if i%5 == 0 {
 			m.pipe = []byte{'z'}
 		}
+		if i%7 == 0 {
+			m.pipe = []byte{'z', 'z'} // a filter list longer than one read chunk
+		}
 		msgs = append(msgs, m)
 	}
 	return max, msgs
@@ -239,4 +243,61 @@ func TestBoundedC05SizesJSON(t *testing.T)     { c05Sizes(t, "json", jsonproto.N
 func TestBoundedC05SizesProtobuf(t *testing.T) { c05Sizes(t, "protobuf", pbproto.NewPbProtoFunc()) }
 func TestBoundedC05SizesThrift(t *testing.T) {
 	c05Sizes(t, "thrift-binary", thriftproto.NewBinaryProtoFunc())
+}
+
+// HTTP protocol (maps messages onto HTTP requests/responses: the compared field
+// set is what it documents - type, sequence number, status, body, gzip filter):
+// back-to-back replies and calls, chunked reads
+func TestBoundedC05RoundTripHTTP(t *testing.T) {
+	max, _ := c05Domain()
+	bodies := c05Strings([]string{"a", "\"", "\\", "{", "ü", "\n"}, max)
+	cases := 0
+	for _, chunk := range []int{0, 1, 2, 7} {
+		conn := &c05Conn{chunk: chunk}
+		p := httproto.NewHTTProtoFunc()(conn)
+		type want struct {
+			mtype byte
+			seq   int32
+			code  int32
+			body  string
+		}
+		var wants []want
+		for i, b := range bodies {
+			out := socket.NewMessage()
+			w := want{mtype: erpc.TypeReply, seq: int32(i + 1), body: b}
+			if i%2 == 0 {
+				w.mtype = erpc.TypeCall
+			}
+			out.SetMtype(w.mtype)
+			out.SetSeq(w.seq)
+			out.SetServiceMethod("/m/x")
+			bb := []byte(b)
+			out.SetBody(&bb)
+			out.SetBodyCodec('s')
+			if w.mtype == erpc.TypeReply && i%3 == 0 {
+				w.code = 400 + int32(i%50)
+				w.body = ""
+				out.SetStatus(erpc.NewStatus(w.code, "bad", "cause"))
+			}
+			if i%4 == 0 {
+				out.XferPipe().Append('z')
+			}
+			if err := p.Pack(out); err != nil {
+				t.Fatalf("http: pack: %v", err)
+			}
+			wants = append(wants, w)
+		}
+		for i, w := range wants {
+			var body []byte
+			in := socket.NewMessage(socket.WithNewBody(func(socket.Header) interface{} { return &body }))
+			if err := p.Unpack(in); err != nil {
+				t.Fatalf("REPLAYED (bounded): http (chunk %d): frame %d of %d back-to-back frames does not decode: %v (want %+v)", chunk, i+1, len(wants), err, w)
+			}
+			if in.Mtype() != w.mtype || in.Seq() != w.seq || in.Status().Code() != w.code || (w.code == 0 && string(body) != w.body) {
+				t.Fatalf("REPLAYED (bounded): http (chunk %d): frame %d differs: sent %+v, received type %d seq %d status %d body %q", chunk, i+1, w, in.Mtype(), in.Seq(), in.Status().Code(), body)
+			}
+			cases++
+		}
+	}
+	t.Logf("BOUNDED C05 http round trip: bound %d, %d frames, type/seq/status/body equal, no loss of frame sync", max, cases)
 }
